@@ -4,7 +4,7 @@ Checks a behaviour-preserving refactoring (srcdir has patch.diff, README.md) aga
 applies it to a scratch copy of /repo, requires build + baseline tests to pass, runs every property's
 quick check on the copy. Any alarm is a FALSE ALARM of the checker. Stores the refactoring under
 /verif/benign/<id>/ with meta.json (alarms listed)."""
-import json, os, shutil, subprocess, sys, tempfile, time
+import json, os, re, shutil, subprocess, sys, tempfile, time
 from concurrent.futures import ThreadPoolExecutor
 src, rid = sys.argv[1], sys.argv[2]
 env = dict(os.environ, GOFLAGS="-mod=mod", GOPROXY="off", GOSUMDB="off", GOTOOLCHAIN="local")
@@ -21,16 +21,19 @@ try:
     b = subprocess.run(["go", "build", "./..."], cwd=d, env=env, capture_output=True, text=True)
     t = subprocess.run(["go", "test", "-vet=off", "-count=1", "./..."], cwd=d, env=env, capture_output=True, text=True)
     meta["builds"], meta["tests_pass"] = b.returncode == 0, t.returncode == 0
-    props = subprocess.run(["/verif/bin/fcheck", "-list"], capture_output=True, text=True).stdout.split()
-    def one(p):
-        c = subprocess.run(["/verif/bin/fcheck", "-repo", d, "-prop", p, "-no-evidence"], capture_output=True, text=True)
-        lines = [l.strip() for l in c.stdout.splitlines() if l.startswith("  ") and ("VIOLATION" in l or "UNDECIDED" in l)]
-        return p, c.returncode, lines
+    c = subprocess.run(["/verif/bin/fcheck", "-repo", d, "-all", "-no-evidence"], capture_output=True, text=True)
     alarms = {}
-    with ThreadPoolExecutor(8) as ex:
-        for p, code, lines in ex.map(one, props):
-            if code != 0:
-                alarms[p] = [l[:260] for l in lines[:5]]
+    cur = []
+    for l in c.stdout.splitlines():
+        m = re.match(r"property=(C\d+) .* violations=(\d+)", l)
+        if m:
+            if int(m.group(2)) > 0:
+                alarms[m.group(1)] = [x[:260] for x in cur[:5]]
+            cur = []
+        elif l.startswith("  ") and ("VIOLATION" in l or "UNDECIDED" in l):
+            cur.append(l.strip())
+    if c.returncode not in (0, 1) or "property=" not in c.stdout:
+        alarms["CHECKER"] = [c.stdout[-300:] + c.stderr[-300:]]
     meta["alarms"] = alarms
     out = os.path.join("/verif/benign", rid)
     os.makedirs(out, exist_ok=True)
